@@ -32,6 +32,7 @@ type mPoint struct {
 	need   bool  // demand: count of its window before it + ncost > max ("already full")
 	ncost  int64
 	cands  []int64 // alternative attribution instants (resource level); nil = only t
+	req    int     // resource level: index of the request the point stands for
 }
 
 // feasible: can pts (sorted by instant, then order) be cut into consecutive
